@@ -104,15 +104,26 @@ func flowsFrom(v ssa.Value, pred func(ssa.Value) bool) bool {
 			}
 		case *ssa.UnOp:
 			if t.Op == token.MUL {
-				if al, ok := t.X.(*ssa.Alloc); ok {
-					if refs := al.Referrers(); refs != nil {
-						for _, r := range *refs {
-							if st, ok := r.(*ssa.Store); ok && st.Addr == al && walk(st.Val) {
-								return true
-							}
+				var al *ssa.Alloc
+				switch a := t.X.(type) {
+				case *ssa.Alloc:
+					al = a
+				case *ssa.FreeVar:
+					if b, ok := freeVarBinding(a).(*ssa.Alloc); ok {
+						al = b
+					}
+				}
+				if al != nil {
+					for _, val := range capturedStores(al) {
+						if walk(val) {
+							return true
 						}
 					}
 				}
+			}
+		case *ssa.FreeVar:
+			if b := freeVarBinding(t); b != nil {
+				return walk(b)
 			}
 		case *ssa.Slice:
 			if t.Low == nil && t.High == nil {
@@ -122,6 +133,43 @@ func flowsFrom(v ssa.Value, pred func(ssa.Value) bool) bool {
 		return false
 	}
 	return walk(v)
+}
+
+// capturedStores: every value stored directly into local al, in its function and in the
+// closures that capture it.
+func capturedStores(al *ssa.Alloc) []ssa.Value {
+	var res []ssa.Value
+	refs := al.Referrers()
+	if refs == nil {
+		return nil
+	}
+	for _, r := range *refs {
+		switch x := r.(type) {
+		case *ssa.Store:
+			if x.Addr == al {
+				res = append(res, x.Val)
+			}
+		case *ssa.MakeClosure:
+			fn, ok := x.Fn.(*ssa.Function)
+			if !ok {
+				continue
+			}
+			for i, b := range x.Bindings {
+				if b != ssa.Value(al) || i >= len(fn.FreeVars) {
+					continue
+				}
+				fv := fn.FreeVars[i]
+				if fr := fv.Referrers(); fr != nil {
+					for _, u := range *fr {
+						if st, ok := u.(*ssa.Store); ok && st.Addr == ssa.Value(fv) {
+							res = append(res, st.Val)
+						}
+					}
+				}
+			}
+		}
+	}
+	return res
 }
 
 func flowsFromCall(v ssa.Value, m fnMatch, idx int) bool {
